@@ -404,10 +404,15 @@ def samp_f(repo: Repo) -> List[Ob]:
                 if any(is_trace(x) is not None for x in [n.elt] + list(ast.walk(n.elt))):
                     exprs.append((n.elt, src(n.generators[0].target), n))
             if isinstance(n, ast.For) and "operators" in src(n.iter):
+                inloop = {a_.targets[0].id: a_.value for a_ in ast.walk(n) if isinstance(a_, ast.Assign) and len(a_.targets) == 1 and isinstance(a_.targets[0], ast.Name)}
                 for x in ast.walk(n):
                     mc = method_call(x)
-                    if mc and mc[1] == "append" and x.args and any(is_trace(y) is not None for y in [x.args[0]] + list(ast.walk(x.args[0]))):
-                        exprs.append((x.args[0], src(n.target), n))
+                    if mc and mc[1] == "append" and x.args:
+                        val = x.args[0]
+                        if isinstance(val, ast.Name) and val.id in inloop:
+                            val = inloop[val.id]            # `w = float(trace(…).real)` … probs.append(w): the value named in the same iteration
+                        if any(is_trace(y) is not None for y in [val] + list(ast.walk(val))):
+                            exprs.append((val, src(n.target), n))
         if not exprs:
             obs.append(skip("SAMP-f", fi, "povm-probability", P, fn, "per-operator probability expression not found"))
             continue
